@@ -164,11 +164,11 @@ func (decWorld) Gen(prop, tier string, idx int, r *Rng) *Trace {
 // ---- messages
 
 type decSlot struct {
-	kind    string
-	inner   []byte // cose: the payload that was signed
-	cur     []byte
-	signer  int
-	faults  int
+	kind   string
+	inner  []byte // cose: the payload that was signed
+	cur    []byte
+	signer int
+	faults int
 }
 
 func padDesc(d ClaimsDesc, n int) ClaimsDesc {
